@@ -334,6 +334,11 @@ class _Relay:
 
 
 def relay(ctx, sess, module_run, mapping, only_functions=None, minimum=1):
+    # nested: this rule set is itself being run for another property, which wants only some of its rules; a
+    # relay whose results that property does not ask for is skipped (so that, say, a vanished anchor in the CRC
+    # kernel does not break the check of the time map, which only shares C04.9)
+    if isinstance(ctx, _Relay) and not (set(mapping.values()) & set(ctx._map)):
+        return 0
     r = _Relay(ctx, mapping, only_functions)
     module_run(r, sess)
     ctx.floor('shared obligations %s' % sorted(mapping.values()), r.count, minimum)
